@@ -16,32 +16,33 @@
 // scans.
 //
 // Oracles
-//   safety   every entry that disappears during a scan is judged at the moment it disappears, on the
-//            map contents just before the cleaner ran: let TR be its tracking entry (the entry itself;
-//            for a NAT forward entry its reverse entry).  The removal is legal iff
-//                T_scan - TR.last_seen > min{ timeouts applicable to TR's protocol and state }.
-//            Traffic after the judgement makes TR.last_seen >= T_scan, so a refreshed entry can never be
-//            removed legally; an entry that was never idle long enough cannot either.  The cleaner may
-//            not change or add conntrack entries.
-//   liveness an entry whose tracking entry is idle past max{applicable timeouts} at the start of scan k
-//            and sees no traffic afterwards is gone at the end of scan k+1.
-//   sanitizer a sanitizer report / crash of the native cleaner is a violation (the Go scanner and the
-//            C cleaner exchange exactly the bytes the kernel maps would hold).
-//   The applicable timeouts are written from timeouts.Timeouts and the statement: ICMP/ICMPv6 -> ICMP,
-//   UDP -> UDP, other non-TCP -> generic; TCP: RST seen on a leg -> reset; FIN on both legs (either leg
-//   for DSR-forwarded) -> fins; established (SYN+ACK both legs) or DSR -> established, plus the
-//   documented 2 minutes when a reset timestamp is recorded; otherwise -> syn-sent.  Where several
-//   apply, safety uses the smallest and liveness the largest, so the oracle is never stricter than any
-//   reading of "the timeout for its protocol and state".
+//
+//	safety   every entry that disappears during a scan is judged at the moment it disappears, on the
+//	         map contents just before the cleaner ran: let TR be its tracking entry (the entry itself;
+//	         for a NAT forward entry its reverse entry).  The removal is legal iff
+//	             T_scan - TR.last_seen > min{ timeouts applicable to TR's protocol and state }.
+//	         Traffic after the judgement makes TR.last_seen >= T_scan, so a refreshed entry can never be
+//	         removed legally; an entry that was never idle long enough cannot either.  The cleaner may
+//	         not change or add conntrack entries.
+//	liveness an entry whose tracking entry is idle past max{applicable timeouts} at the start of scan k
+//	         and sees no traffic afterwards is gone at the end of scan k+1.
+//	sanitizer a sanitizer report / crash of the native cleaner is a violation (the Go scanner and the
+//	         C cleaner exchange exactly the bytes the kernel maps would hold).
+//	The applicable timeouts are written from timeouts.Timeouts and the statement: ICMP/ICMPv6 -> ICMP,
+//	UDP -> UDP, other non-TCP -> generic; TCP: RST seen on a leg -> reset; FIN on both legs (either leg
+//	for DSR-forwarded) -> fins; established (SYN+ACK both legs) or DSR -> established, plus the
+//	documented 2 minutes when a reset timestamp is recorded; otherwise -> syn-sent.  Where several
+//	apply, safety uses the smallest and liveness the largest, so the oracle is never stricter than any
+//	reading of "the timeout for its protocol and state".
 //
 // Deliberately not checked
-//   * removal of a NAT forward entry that has no reverse entry at that moment (the code removes it at
+//   - removal of a NAT forward entry that has no reverse entry at that moment (the code removes it at
 //     once as useless; the statement does not cover it) -- counted, not judged;
-//   * a refresh by another CPU between the cleaner's look-up and its delete inside one
+//   - a refresh by another CPU between the cleaner's look-up and its delete inside one
 //     process_ccq_entry call (needs real BPF concurrency);
-//   * entries of unknown type, connection-limit accounting, the stale-NAT and workload-removal
+//   - entries of unknown type, connection-limit accounting, the stale-NAT and workload-removal
 //     scanners, map auto-resizing, RST marking;
-//   * whether both legs of an expired idle pair leave in the same cleaner run.
+//   - whether both legs of an expired idle pair leave in the same cleaner run.
 package main
 
 import (
@@ -674,7 +675,12 @@ func run(c *harness.Case) {
 		}
 		sig = append(sig, len(start), gone)
 		// liveness: entries doomed at the start of the PREVIOUS scan must be gone now unless traffic touched them
-		for _, k := range sortedKeys(w.doomed) {
+		dk := make([]string, 0, len(w.doomed))
+		for k := range w.doomed {
+			dk = append(dk, k)
+		}
+		sort.Strings(dk)
+		for _, k := range dk {
 			ts := w.doomed[k]
 			if _, still := end[k]; !still {
 				c.Count("liveness_confirmed", 1)
